@@ -145,6 +145,31 @@ def absorbed_check(ctx, case, dag_unopt, dag_opt):
                      % (n, op.projected_mem, [(a, un[a].projected_mem) for a in lows]), case)
 
 
+def fits_case(ctx, prog, a, reserved, optfn, label):
+    """a plan that fits unoptimized must still fit after a non-forcing optimization; fused mem >= absorbed ops"""
+    import cubed
+    work = tempfile.mkdtemp(prefix="c04-")
+    try:
+        try:
+            spec = cubed.Spec(work_dir=work, allowed_mem=a, reserved_mem=reserved)
+            vals = dx.build(prog, spec)
+            arrays = [vals[i] for i in prog["outputs"]]
+            fu = plan_of(arrays, optimize_graph=False)
+            kw = {"optimize_function": optfn(arrays)} if optfn else {}
+            fo = plan_of(arrays, optimize_graph=True, **kw)
+        except Exception as e:
+            ctx.dist["declined:" + type(e).__name__] += 1
+            return
+        case = {"program": prog, "allowed_mem": a, "reserved_mem": reserved, "optimizer": label}
+        ctx.count(dict(case, kind="fits"), nontrivial=True, kind="fusion-within-budget")
+        if not exceeding_direct(fu) and exceeding_direct(fo):
+            ctx.fail("plan fits unoptimized (max %d <= %d) but not after optimization %s (max %d)"
+                     % (fu.max_projected_mem, a, label, fo.max_projected_mem), case)
+        absorbed_check(ctx, case, fu.dag, fo.dag)
+    finally:
+        shutil.rmtree(work, ignore_errors=True)
+
+
 def optimizers(rng):
     import functools
     from cubed.core import optimization as O
@@ -193,26 +218,7 @@ def oracle(ctx, nprog=None):
                             one_case(ctx, prog, expect, r["M"], reserved, og, optfn if og else None, label if og else "none", Rec)
                 # fusion within budget, at budgets where the unoptimized plan just fits
                 for a in (base[False]["M"] + reserved, base[False]["M"] + reserved + 1):
-                    work = tempfile.mkdtemp(prefix="c04-")
-                    try:
-                        try:
-                            spec = cubed.Spec(work_dir=work, allowed_mem=a, reserved_mem=reserved)
-                            vals = dx.build(prog, spec)
-                            arrays = [vals[i] for i in prog["outputs"]]
-                            fu = plan_of(arrays, optimize_graph=False)
-                            kw = {"optimize_function": optfn(arrays)} if optfn else {}
-                            fo = plan_of(arrays, optimize_graph=True, **kw)
-                        except Exception as e:
-                            ctx.dist["declined:" + type(e).__name__] += 1
-                            continue
-                        case = {"program": prog, "allowed_mem": a, "reserved_mem": reserved, "optimizer": label}
-                        ctx.count(dict(case, kind="fits"), nontrivial=True, kind="fusion-within-budget")
-                        if not exceeding_direct(fu) and exceeding_direct(fo):
-                            ctx.fail("plan fits unoptimized (max %d <= %d) but not after optimization %s (max %d)"
-                                     % (fu.max_projected_mem, a, label, fo.max_projected_mem), case)
-                        absorbed_check(ctx, case, fu.dag, fo.dag)
-                    finally:
-                        shutil.rmtree(work, ignore_errors=True)
+                    fits_case(ctx, prog, a, reserved, optfn, label)
         # forced fusion: memory of fused ops still dominates what they replaced
         work = tempfile.mkdtemp(prefix="c04-")
         try:
@@ -290,5 +296,21 @@ def corr(ctx):
 
 
 def search(ctx):
+    import functools
+    from cubed.core import optimization as O
+    # first: the disagreeing inputs lifted to end-to-end cases
+    for d in ctx.disagreements[:40]:
+        c = d["case"]
+        if c.get("kind") != "optimize" or "program" not in c:
+            continue
+        label, ms, mb, al, nv = c["config"]
+        if al is not None or label not in ("default", "multi"):
+            continue   # forced fusion is exempt from the within-budget clause
+        optfn = (lambda arrays, ms=ms, mb=mb, nv=nv: functools.partial(
+            O.multiple_inputs_optimize_dag, max_total_source_arrays=ms, max_total_num_input_blocks=mb, never_fuse=nv))
+        for a in (c["allowed_mem"], c["allowed_mem"] + 1):
+            fits_case(ctx, c["program"], a, 0, optfn, "lifted:" + str(c["config"]))
+    if any(not (f["key"] and ctx.known(f["key"])) for f in ctx.failures):
+        return
     ctx.rng.seed(ctx.seed + 15485863)
     oracle(ctx, nprog=ctx.budget(25, 150))
